@@ -447,6 +447,177 @@ fn stage_c(ctx: &Ctx, q: u8, rep: &mut Report) {
     }
 }
 
+/// DQUANT chains: n macroblocks in a row, each updating the quantiser and carrying a level-5
+/// coefficient; all chains of length 2 and 3 from PQUANT q, plus random longer ones. What the
+/// k-th macroblock is dequantised with depends on every clamp on the way.
+fn stage_c_chains(ctx: &Ctx, q: u8, rep: &mut Report) {
+    let mut rng = Rng::new(ctx.seed ^ 0xC11C, q as u64);
+    let ds = [-2i8, -1, 1, 2];
+    let mut chains: Vec<Vec<i8>> = vec![];
+    for a in ds {
+        for b in ds {
+            chains.push(vec![a, b]);
+            for c in ds {
+                chains.push(vec![a, b, c]);
+            }
+        }
+    }
+    for _ in 0..ctx.n(20, 400) {
+        let n = 4 + rng.below(6) as usize;
+        chains.push((0..n).map(|_| *rng.pick(&ds)).collect());
+    }
+    for (ci, ch) in chains.iter().enumerate() {
+        let flavour = [Flavour::Sor(0), Flavour::Sor(1), Flavour::StdPlus][ci % 3];
+        let intra = ci % 2 == 1;
+        let n = ch.len();
+        let mk_cfg = |quant: u8, tr: u8| PicCfg { flavour, w: 16 * n, h: 16, quant, tr, wide_levels: false, stuffing_pct: 0, pei: 0, deblock_flag: false, prefer_fixed_size_code: false, force16: false };
+        let refpic = {
+            let hdr = make_header(&mk_cfg(8, 0), 0, &mut rng);
+            let mbs = (0..n).map(|_| SymMb::Coded { kind: MbKind::Intra, dquant: 1, mvd: [[0; 2]; 4], blocks: std::array::from_fn(|_| SymBlock { intradc: Some(127), events: vec![] }) }).collect();
+            SymPicture { hdr, w: 16 * n, h: 16, mbs, stuffing: vec![] }
+        };
+        let hdr = make_header(&mk_cfg(q, 1), if intra { 0 } else { 1 }, &mut rng);
+        let mbs: Vec<SymMb> = ch
+            .iter()
+            .map(|d| SymMb::Coded {
+                kind: if intra { MbKind::IntraQ } else { MbKind::InterQ },
+                dquant: *d,
+                mvd: [[0; 2]; 4],
+                blocks: std::array::from_fn(|_| SymBlock { intradc: if intra { Some(100) } else { None }, events: vec![Ev { run: 0, level: 2, esc: Esc::Short }] }),
+            })
+            .collect();
+        let pic = SymPicture { hdr, w: 16 * n, h: 16, mbs, stuffing: vec![] };
+        let bytes = pic.encode();
+        rep.evaluations += 1;
+        let mut dec = Dec::new(flavour.sorenson(), false);
+        if dec.decode(&refpic.encode()) != Outcome::Ok {
+            rep.count("skipped:reference");
+            continue;
+        }
+        let refp = dec.planes().unwrap();
+        let tag = J::obj().set("property", "C11").set("kind", "stageCchains").set("q", q as u64).set("what", format!("chain {:?}", ch));
+        let res = if intra {
+            match reconstruct(&pic, None) {
+                Err(e) => Err(Fail { sig: "generator-invalid".into(), detail: e }),
+                Ok(rec) => match dec.decode(&bytes) {
+                    Outcome::Ok => {
+                        let g = dec.planes().unwrap();
+                        match compare(&rec, &g.y, &g.cb, &g.cr).0 {
+                            None => Ok(()),
+                            Some(m) => Err(Fail { sig: "mismatch".into(), detail: m }),
+                        }
+                    }
+                    Outcome::Panic { msg, loc } => Err(Fail { sig: format!("panic@{}", loc), detail: msg }),
+                    Outcome::Err(k) => Err(Fail { sig: format!("error/{}", k), detail: k }),
+                },
+            }
+        } else {
+            check_inter(&mut dec, &refp, &pic, &bytes).map(|_| ())
+        };
+        match res {
+            Ok(()) => {
+                rep.count("C:dquant_chains");
+                // did some step run into a clamp and a later one move away from it?
+                let (mut qq, mut clamped, mut back) = (q as i32, false, false);
+                for d in ch {
+                    let want = qq + *d as i32;
+                    let nq = want.clamp(1, 31);
+                    if clamped && nq != qq {
+                        back = true;
+                    }
+                    if nq != want {
+                        clamped = true;
+                    }
+                    qq = nq;
+                }
+                if back {
+                    rep.count("C:dquant_chains_leaving_a_clamp");
+                }
+                rep.distinct.insert(fnv64(&bytes));
+            }
+            Err(f) if f.sig == "generator-invalid" => rep.count("skipped:generator-invalid"),
+            Err(f) => rep.violation(format!("C/dquant-chain/{}", f.sig), format!("PQUANT {} DQUANT chain {:?} ({}, {}): {}", q, ch, flavour.name(), if intra { "intra" } else { "inter" }, f.detail), tag),
+        }
+    }
+}
+
+/// Escape forms follow the version of the picture they are in, not that of any earlier picture:
+/// a key picture of Sorenson version a (accepted, or rejected after its header), then a
+/// predicted picture of version b != a whose coefficients are escape-coded.
+fn stage_c_versions(ctx: &Ctx, q: u8, rep: &mut Report) {
+    let mut rng = Rng::new(ctx.seed ^ 0xC11D, q as u64);
+    for (b, forms) in [(1u8, vec![Esc::Esc7, Esc::Esc11]), (0u8, vec![Esc::Esc8])] {
+        let a = 1 - b;
+        for form in forms {
+            let max = match form {
+                Esc::Esc7 => 63,
+                Esc::Esc8 => 127,
+                _ => 1023,
+            };
+            let mut mags: Vec<i32> = vec![1, 2, 13, max / 2, max - 1, max];
+            for _ in 0..ctx.n(4, 40) {
+                mags.push(1 + rng.below(max as u64) as i32);
+            }
+            for mag in mags {
+                for variant in 0..3 {
+                    // 0: I(a) P(b); 1: I(b) I(a, rejected after its header) P(b); 2: I(a) D(b) P(b)
+                    let level = if rng.chance(1, 2) { mag } else { -mag };
+                    let pos = *rng.pick(&[0usize, 1, 7, 63]);
+                    let mut dec = Dec::new(true, false);
+                    let first = flat_reference(Flavour::Sor(if variant == 1 { b } else { a }), &mut rng);
+                    rep.evaluations += 1;
+                    if dec.decode(&first.encode()) != Outcome::Ok {
+                        rep.count("skipped:reference");
+                        continue;
+                    }
+                    if variant == 1 {
+                        let mut bad = flat_reference(Flavour::Sor(a), &mut rng);
+                        if let Some(SymMb::Coded { blocks, .. }) = bad.mbs.first_mut() {
+                            blocks[0].intradc = Some(0);
+                        }
+                        if dec.decode(&bad.encode()) == Outcome::Ok {
+                            rep.count("skipped:bad-key-picture-accepted");
+                            continue;
+                        }
+                    }
+                    let tag = J::obj().set("property", "C11").set("kind", "stageCversions").set("q", q as u64).set("what", format!("variant {} level {} {:?}", variant, level, form));
+                    let mut refp = dec.planes().unwrap();
+                    let mut ok = true;
+                    let steps: &[u8] = if variant == 2 { &[2, 1] } else { &[1] };
+                    for ptype in steps {
+                        let mut pic = one_coeff_picture(Flavour::Sor(b), q, false, pos, level, form, 100, &mut rng);
+                        if let Hdr::Sor(h) = &mut pic.hdr {
+                            h.ptype = *ptype;
+                        }
+                        let bytes = pic.encode();
+                        match check_inter(&mut dec, &refp, &pic, &bytes) {
+                            Ok((_, got, _)) => {
+                                if *ptype == 1 {
+                                    refp = got;
+                                }
+                            }
+                            Err(f) if f.sig == "generator-invalid" => {
+                                rep.count("skipped:generator-invalid");
+                                ok = false;
+                                break;
+                            }
+                            Err(f) => {
+                                rep.violation(format!("C/version-mix/{}", f.sig), format!("q={} key picture version {} then predicted picture version {} (variant {}) level {} at {} {:?}: {}", q, a, b, variant, level, pos, form, f.detail), tag.clone());
+                                ok = false;
+                                break;
+                            }
+                        }
+                    }
+                    if ok {
+                        rep.count("C:version_mix_pictures");
+                        rep.count(&format!("C:version_mix:variant{}", variant));
+                    }
+                }
+            }
+        }
+    }
+}
+
 pub fn run(ctx: &Ctx) -> (Report, String) {
     let reps = par_shards(1 + 31 + 31, ctx.threads, |i| {
         let mut rep = Report::new();
@@ -460,6 +631,8 @@ pub fn run(ctx: &Ctx) -> (Report, String) {
                 }
             } else if ctx.scale_pct == 100 || i % 6 == 1 {
                 stage_c(ctx, (i - 31) as u8, rep);
+                stage_c_chains(ctx, (i - 31) as u8, rep);
+                stage_c_versions(ctx, (i - 31) as u8, rep);
             }
         });
         rep
@@ -477,6 +650,11 @@ pub fn run(ctx: &Ctx) -> (Report, String) {
         rep.require("C:dquant_updates", 31 * 4 * 2);
         rep.require("C:dquant_clamped", 8);
         rep.require("C:dquant_on_empty_macroblock", 31 * 4 * 2);
+        rep.require("C:dquant_chains", 31 * 80);
+        rep.require("C:dquant_chains_leaving_a_clamp", 100);
+        rep.require("C:version_mix:variant0", 31 * 18);
+        rep.require("C:version_mix:variant1", 31 * 18);
+        rep.require("C:version_mix:variant2", 31 * 18);
         rep.require("C:inter:Esc11", 1000);
         rep.require("C:intra:Esc11", 1000);
         rep.exhaustive = Some(rep.violations.is_empty());
@@ -490,6 +668,8 @@ pub fn replay(ctx: &Ctx, j: &J, rep: &mut Report) {
         Some("stageA") => stage_a(rep),
         Some("stageB") => stage_b(q, rep),
         Some("stageBmulti") => stage_b_multi(ctx, q, rep),
+        Some("stageCchains") => stage_c_chains(ctx, q, rep),
+        Some("stageCversions") => stage_c_versions(ctx, q, rep),
         _ => stage_c(ctx, q, rep),
     }
 }
